@@ -44,7 +44,8 @@ type Resolver struct {
 // NewResolver creates a new did:web Resolver with default TLS configuration.
 func NewResolver() *Resolver {
 	return &Resolver{
-		HttpClient: client.NewWithCache(5 * time.Second),
+		// The DID document must come from the host and path encoded in the DID: redirects are not followed.
+		HttpClient: client.NewWithCache(5 * time.Second).WithoutRedirects(),
 	}
 }
 
@@ -62,6 +63,9 @@ func (w Resolver) Resolve(id did.DID, _ *resolver.ResolveMetadata) (*did.Documen
 		// if the id doesn't contain a path we set '/.well-known/did.json' s path
 		baseURL.Path = "/.well-known"
 	}
+	// Keep RawPath in sync with Path: otherwise the URL is serialized from the decoded Path and percent-encoded characters
+	// of the DID's path (e.g. %2F) end up decoded in the request, which then goes to another path than the DID encodes.
+	baseURL.RawPath = baseURL.EscapedPath() + "/did.json"
 	baseURL.Path = baseURL.Path + "/did.json"
 	targetURL := baseURL.String()
 
